@@ -21,6 +21,7 @@ import (
 	"crypto"
 	"crypto/ecdsa"
 	"crypto/elliptic"
+	"encoding/json"
 	"errors"
 	"fmt"
 	"net/http"
@@ -172,7 +173,55 @@ func authzResult(a *acme.Authorization, err error) result {
 	if a == nil {
 		return result{err: err}
 	}
-	return result{err: err, status: a.Status, uri: a.URI}
+	return result{err: err, status: a.Status, uri: a.URI, extra: authzSummary(a)}
+}
+
+// authzSummary / authzSummaryJSON render what an Authorization says, from the decoded Go
+// value and from the JSON object the server sent last; they must agree (a value decoded
+// from the final reply must not carry members of an earlier poll reply).
+func authzSummary(a *acme.Authorization) string {
+	s := fmt.Sprintf("status=%s id=%s/%s wildcard=%v expires=%v chals=%d", a.Status, a.Identifier.Type, a.Identifier.Value, a.Wildcard, !a.Expires.IsZero(), len(a.Challenges))
+	for _, ch := range a.Challenges {
+		e := "-"
+		if ch.Error != nil {
+			e = "?"
+			var ae *acme.Error
+			if errors.As(ch.Error, &ae) {
+				e = fmt.Sprintf("%s/%d/sub%d", ae.ProblemType, ae.StatusCode, len(ae.Subproblems))
+			}
+		}
+		s += fmt.Sprintf(" [%s %s %s %s err=%s]", ch.Type, ch.URI, ch.Token, ch.Status, e)
+	}
+	return s
+}
+
+func authzSummaryJSON(body []byte) string {
+	var o struct {
+		Status     string
+		Expires    string
+		Wildcard   bool
+		Identifier struct{ Type, Value string }
+		Challenges []struct {
+			Type, URL, Token, Status, Validated string
+			Error                               *struct {
+				Type        string
+				Status      int
+				Subproblems []any
+			}
+		}
+	}
+	if json.Unmarshal(body, &o) != nil {
+		return "unparseable"
+	}
+	s := fmt.Sprintf("status=%s id=%s/%s wildcard=%v expires=%v chals=%d", o.Status, o.Identifier.Type, o.Identifier.Value, o.Wildcard, o.Expires != "", len(o.Challenges))
+	for _, ch := range o.Challenges {
+		e := "-"
+		if ch.Error != nil {
+			e = fmt.Sprintf("%s/%d/sub%d", ch.Error.Type, ch.Error.Status, len(ch.Error.Subproblems))
+		}
+		s += fmt.Sprintf(" [%s %s %s %s err=%s]", ch.Type, ch.URL, ch.Token, ch.Status, e)
+	}
+	return s
 }
 
 // ---------------------------------------------------------------------------
@@ -803,6 +852,9 @@ func (e *env) corresponds(op *opSpec, fx *acmesrv.Exchange, res result) string {
 		}
 		if res.status != fx.ObjStatus || res.uri != e.srv.AuthzURL() {
 			return fmt.Sprintf("authorization {%s %s}, server sent {%s %s}", res.uri, res.status, e.srv.AuthzURL(), fx.ObjStatus)
+		}
+		if want := authzSummaryJSON(fx.ReplyBody); res.extra != want {
+			return fmt.Sprintf("authorization returned differs from the object the server sent last: got {%s}, sent {%s}", res.extra, want)
 		}
 	case "Accept":
 		if why := nilErr(); why != "" {
